@@ -1,72 +1,80 @@
 import CollectionsC.Proofs.ListHistory
 /-! Allocator independence: every model operation consults the ledger only through the outcomes of
-its allocator calls, i.e. through `Mem.sched`.  Two ledgers with the same schedule give the same
-statuses, out-values and states (and leave equal schedules behind). -/
+its allocator calls, i.e. through `Mem.sched` (and a list on the C library allocator does not
+consult it at all).  Two ledgers with the same schedule give the same statuses, out-values and
+states (and leave equal schedules behind). -/
 namespace CC
 open CC Chain
 open CC.Spec
 open CC.Spec.LSeq (Op Out Params)
 
-/-- outcome of the next allocator call as a function of the schedule -/
-def Sched.ok : List Bool → Bool
-  | true :: _ => false
-  | _ => true
-def Sched.rest : List Bool → List Bool
-  | _ :: r => r
-  | [] => []
+/-- outcome of the next allocator call through the triple `t` as a function of the schedule -/
+def Sched.ok : Triple → List Bool → Bool
+  | .conf, true :: _ => false
+  | _, _ => true
+def Sched.rest : Triple → List Bool → List Bool
+  | .conf, _ :: r => r
+  | _, s => s
 /-- `k` node allocations in a row (stopping at the first refusal) -/
-def Sched.chainOk : Nat → List Bool → Bool
+def Sched.chainOk (t : Triple) : Nat → List Bool → Bool
   | 0, _ => true
-  | k + 1, s => if Sched.ok s then Sched.chainOk k (Sched.rest s) else false
-def Sched.chainRest : Nat → List Bool → List Bool
+  | k + 1, s => if Sched.ok t s then Sched.chainOk t k (Sched.rest t s) else false
+def Sched.chainRest (t : Triple) : Nat → List Bool → List Bool
   | 0, s => s
-  | k + 1, s => if Sched.ok s then Sched.chainRest k (Sched.rest s) else Sched.rest s
+  | k + 1, s => if Sched.ok t s then Sched.chainRest t k (Sched.rest t s) else Sched.rest t s
 
-theorem Mem.free_libc (m : Mem) : m.free.libc = m.libc := by unfold Mem.free; split <;> rfl
-theorem Mem.alloc_libc (m : Mem) : m.alloc.2.libc = m.libc := by unfold Mem.alloc; split <;> rfl
+theorem Mem.allocT_fst (m : Mem) (t : Triple) : (m.allocT t).1 = Sched.ok t m.sched := by
+  cases t
+  · obtain ⟨sched, _, _, _, _, _, _, _, _, _⟩ := m
+    cases sched with
+    | nil => rfl
+    | cons b r => cases b <;> rfl
+  · cases m.sched <;> rfl
+theorem Mem.allocT_sched (m : Mem) (t : Triple) : (m.allocT t).2.sched = Sched.rest t m.sched := by
+  cases t
+  · obtain ⟨sched, _, _, _, _, _, _, _, _, _⟩ := m
+    cases sched with
+    | nil => rfl
+    | cons b r => cases b <;> rfl
+  · cases h : m.sched <;> simp [Mem.allocT, Sched.rest, h]
 
-theorem Mem.alloc_fst (m : Mem) : m.alloc.1 = Sched.ok m.sched := by
-  unfold Mem.alloc; split <;> simp_all [Sched.ok]
-theorem Mem.alloc_sched (m : Mem) : m.alloc.2.sched = Sched.rest m.sched := by
-  unfold Mem.alloc; split <;> simp_all [Sched.rest]
-
-theorem Mem.allocChain_fst : ∀ (k got : Nat) (m : Mem), (Mem.allocChain k got m).1 = Sched.chainOk k m.sched
+theorem Mem.allocChain_fst (t : Triple) : ∀ (k got : Nat) (m : Mem), (Mem.allocChain t k got m).1 = Sched.chainOk t k m.sched
   | 0, _, _ => rfl
   | k + 1, got, m => by
-    simp only [Mem.allocChain, Sched.chainOk, ← Mem.alloc_fst]
-    by_cases h : m.alloc.1 = true
-    · simp [h, Mem.allocChain_fst k (got + 1) m.alloc.2, Mem.alloc_sched]
+    simp only [Mem.allocChain, Sched.chainOk, ← Mem.allocT_fst]
+    by_cases h : (m.allocT t).1 = true
+    · simp [h, Mem.allocChain_fst t k (got + 1) (m.allocT t).2, Mem.allocT_sched]
     · simp [h]
-theorem Mem.allocChain_sched : ∀ (k got : Nat) (m : Mem), (Mem.allocChain k got m).2.sched = Sched.chainRest k m.sched
+theorem Mem.allocChain_sched (t : Triple) : ∀ (k got : Nat) (m : Mem), (Mem.allocChain t k got m).2.sched = Sched.chainRest t k m.sched
   | 0, _, _ => rfl
   | k + 1, got, m => by
-    simp only [Mem.allocChain, Sched.chainRest, ← Mem.alloc_fst]
-    by_cases h : m.alloc.1 = true
-    · simp [h, Mem.allocChain_sched k (got + 1) m.alloc.2, Mem.alloc_sched]
-    · simp [h, Mem.freeN_sched, Mem.alloc_sched]
+    simp only [Mem.allocChain, Sched.chainRest, ← Mem.allocT_fst]
+    by_cases h : (m.allocT t).1 = true
+    · simp [h, Mem.allocChain_sched t k (got + 1) (m.allocT t).2, Mem.allocT_sched]
+    · simp [h, Mem.freeN_sched, Mem.allocT_sched]
 
-theorem DList.Mem.buildChain_fst : ∀ (k got : Nat) (m : Mem), (DList.Mem.buildChain k got m).1 = Sched.chainOk k m.sched
+theorem DList.Mem.buildChain_fst (t : Triple) : ∀ (k got : Nat) (m : Mem), (DList.Mem.buildChain t k got m).1 = Sched.chainOk t k m.sched
   | 0, _, _ => rfl
   | k + 1, got, m => by
-    simp only [DList.Mem.buildChain, Sched.chainOk, ← Mem.alloc_fst]
-    by_cases h : m.alloc.1 = true
-    · simp [h, DList.Mem.buildChain_fst k (got + 1) m.alloc.2, Mem.alloc_sched]
+    simp only [DList.Mem.buildChain, Sched.chainOk, ← Mem.allocT_fst]
+    by_cases h : (m.allocT t).1 = true
+    · simp [h, DList.Mem.buildChain_fst t k (got + 1) (m.allocT t).2, Mem.allocT_sched]
     · simp [h]
-theorem DList.Mem.buildChain_sched : ∀ (k got : Nat) (m : Mem), (DList.Mem.buildChain k got m).2.sched = Sched.chainRest k m.sched
+theorem DList.Mem.buildChain_sched (t : Triple) : ∀ (k got : Nat) (m : Mem), (DList.Mem.buildChain t k got m).2.sched = Sched.chainRest t k m.sched
   | 0, _, _ => rfl
   | k + 1, got, m => by
-    simp only [DList.Mem.buildChain, Sched.chainRest, ← Mem.alloc_fst]
-    by_cases h : m.alloc.1 = true
-    · simp [h, DList.Mem.buildChain_sched k (got + 1) m.alloc.2, Mem.alloc_sched]
-    · simp [h, Mem.freeN_sched, Mem.alloc_sched]
+    simp only [DList.Mem.buildChain, Sched.chainRest, ← Mem.allocT_fst]
+    by_cases h : (m.allocT t).1 = true
+    · simp [h, DList.Mem.buildChain_sched t k (got + 1) (m.allocT t).2, Mem.allocT_sched]
+    · simp [h, Mem.freeN_sched, Mem.allocT_sched]
 
-theorem DList.Mem.buildChain_nrefused : ∀ (k got : Nat) (m : Mem),
-    (DList.Mem.buildChain k got m).2.nrefused = m.nrefused + (if (DList.Mem.buildChain k got m).1 then 0 else 1)
+theorem DList.Mem.buildChain_nrefused (t : Triple) : ∀ (k got : Nat) (m : Mem),
+    (DList.Mem.buildChain t k got m).2.nrefused = m.nrefused + (if (DList.Mem.buildChain t k got m).1 then 0 else 1)
   | 0, _, m => by simp [DList.Mem.buildChain]
   | k + 1, got, m => by
-    have h := Mem.alloc_nrefused m
-    by_cases ha : m.alloc.1 = true
-    · have ih := DList.Mem.buildChain_nrefused k (got + 1) m.alloc.2
+    have h := Mem.allocT_nrefused m t
+    by_cases ha : (m.allocT t).1 = true
+    · have ih := DList.Mem.buildChain_nrefused t k (got + 1) (m.allocT t).2
       simp only [DList.Mem.buildChain, ha, Bool.not_true, Bool.false_eq_true, if_false]
       rw [ih, h]; simp [ha]
     · simp only [Bool.not_eq_true] at ha
@@ -75,15 +83,15 @@ theorem DList.Mem.buildChain_nrefused : ∀ (k got : Nat) (m : Mem),
 
 namespace DList
 /-- a builder reports `CC_ERR_ALLOC` exactly when one of its allocator calls was refused -/
-theorem builderResult_refused_iff (add : List Nat) (m : Mem) :
-    (builderResult add m).1 = .errAlloc ↔ m.nrefused < (builderResult add m).2.2.nrefused := by
+theorem builderResult_refused_iff (t : Triple) (add : List Nat) (m : Mem) :
+    (builderResult t add m).1 = .errAlloc ↔ m.nrefused < (builderResult t add m).2.2.nrefused := by
   unfold builderResult
-  have h := Mem.alloc_nrefused m
-  by_cases ha : m.alloc.1 = true
-  · have hb := Mem.buildChain_nrefused add.length 0 m.alloc.2
+  have h := Mem.allocT_nrefused m t
+  by_cases ha : (m.allocT t).1 = true
+  · have hb := Mem.buildChain_nrefused t add.length 0 (m.allocT t).2
     simp only [ha, if_true, Nat.add_zero] at h
     simp only [ha, Bool.not_true, Bool.false_eq_true, if_false]
-    by_cases hc : (Mem.buildChain add.length 0 m.alloc.2).1 = true
+    by_cases hc : (Mem.buildChain t add.length 0 (m.allocT t).2).1 = true
     · simp only [hc, if_true, Nat.add_zero] at hb ⊢
       rw [hb, h]; simp
     · simp only [Bool.not_eq_true] at hc
@@ -94,72 +102,61 @@ theorem builderResult_refused_iff (add : List Nat) (m : Mem) :
     simp only [ha, Bool.not_false, if_true]
     rw [h]; simp
 
-theorem step_indep (P : Params) (a b : List Nat) (op : Op) (m1 m2 : Mem) (h : m1.sched = m2.sched) :
-    (step P (ofList a, ofList b) op m1).1 = (step P (ofList a, ofList b) op m2).1 ∧
-    (step P (ofList a, ofList b) op m1).2.1 = (step P (ofList a, ofList b) op m2).2.1 ∧
-    (step P (ofList a, ofList b) op m1).2.2.sched = (step P (ofList a, ofList b) op m2).2.2.sched := by
+theorem step_indep (P : Params) (t1 t2 : Triple) (a b : List Nat) (op : Op) (m1 m2 : Mem) (h : m1.sched = m2.sched) :
+    (step P (ofList t1 a, ofList t2 b) op m1).1 = (step P (ofList t1 a, ofList t2 b) op m2).1 ∧
+    (step P (ofList t1 a, ofList t2 b) op m1).2.1 = (step P (ofList t1 a, ofList t2 b) op m2).2.1 ∧
+    (step P (ofList t1 a, ofList t2 b) op m1).2.2.sched = (step P (ofList t1 a, ofList t2 b) op m2).2.2.sched := by
   cases op <;>
     simp only [step, addFirst_ofList, addLast_ofList, addAt_ofList, addAll_ofList, addAllAt_ofList, splice_ofList,
       spliceAt_ofList, remove_ofList, removeAt_ofList, removeFirst_ofList, removeLast_ofList, removeAll_ofList,
       replaceAt_ofList, reverse_ofList, filterMut_ofList, getFirst_ofList, getLast_ofList, getAt_ofList, toArray_ofList,
-      Mem.alloc_fst, Mem.allocChain_fst, h] <;>
+      Mem.allocT_fst, Mem.allocChain_fst, ofList_triple, h] <;>
     (repeat' split) <;>
-    simp_all [Mem.alloc_sched, Mem.allocChain_sched, Mem.free_sched, Mem.freeN_sched]
+    simp_all [Mem.allocT_sched, Mem.allocChain_sched, Mem.freeT_sched, Mem.freeN_sched]
 
-theorem builderResult_indep (add : List Nat) (m1 m2 : Mem) (h : m1.sched = m2.sched) :
-    (builderResult add m1).1 = (builderResult add m2).1 ∧ (builderResult add m1).2.1 = (builderResult add m2).2.1 ∧
-    (builderResult add m1).2.2.sched = (builderResult add m2).2.2.sched := by
-  simp only [builderResult, Mem.alloc_fst, Mem.buildChain_fst, Mem.alloc_sched, h]
-  (repeat' split) <;> simp_all [Mem.alloc_sched, Mem.buildChain_sched]
+theorem builderResult_indep (t : Triple) (add : List Nat) (m1 m2 : Mem) (h : m1.sched = m2.sched) :
+    (builderResult t add m1).1 = (builderResult t add m2).1 ∧ (builderResult t add m1).2.1 = (builderResult t add m2).2.1 ∧
+    (builderResult t add m1).2.2.sched = (builderResult t add m2).2.2.sched := by
+  simp only [builderResult, Mem.allocT_fst, Mem.buildChain_fst, Mem.allocT_sched, h]
+  (repeat' split) <;> simp_all [Mem.allocT_sched, Mem.buildChain_sched]
 end DList
 
 namespace SList
-theorem step_indep (P : Params) (a b : List Nat) (op : Op) (m1 m2 : Mem) (h : m1.sched = m2.sched) :
-    (step P (ofList a, ofList b) op m1).1 = (step P (ofList a, ofList b) op m2).1 ∧
-    (step P (ofList a, ofList b) op m1).2.1 = (step P (ofList a, ofList b) op m2).2.1 ∧
-    (step P (ofList a, ofList b) op m1).2.2.sched = (step P (ofList a, ofList b) op m2).2.2.sched := by
+theorem step_indep (P : Params) (t1 t2 : Triple) (a b : List Nat) (op : Op) (m1 m2 : Mem) (h : m1.sched = m2.sched) :
+    (step P (ofList t1 a, ofList t2 b) op m1).1 = (step P (ofList t1 a, ofList t2 b) op m2).1 ∧
+    (step P (ofList t1 a, ofList t2 b) op m1).2.1 = (step P (ofList t1 a, ofList t2 b) op m2).2.1 ∧
+    (step P (ofList t1 a, ofList t2 b) op m1).2.2.sched = (step P (ofList t1 a, ofList t2 b) op m2).2.2.sched := by
   cases op <;>
     simp only [step, addFirst_ofList, addLast_ofList, addAt_ofList, addAll_ofList, addAllAt_ofList, splice_ofList,
       spliceAt_ofList, remove_ofList, removeAt_ofList, removeFirst_ofList, removeLast_ofList, removeAll_ofList,
       replaceAt_ofList, reverse_ofList, filterMut_ofList, getFirst_ofList, getLast_ofList, getAt_ofList, toArray_ofList,
-      Mem.alloc_fst, Mem.allocChain_fst, h] <;>
+      Mem.allocT_fst, Mem.allocChain_fst, ofList_triple, h] <;>
     (repeat' split) <;>
-    simp_all [Mem.alloc_sched, Mem.allocChain_sched, Mem.free_sched, Mem.freeN_sched]
+    simp_all [Mem.allocT_sched, Mem.allocChain_sched, Mem.freeT_sched, Mem.freeN_sched]
 end SList
 
 namespace ListHistory
 variable {dbl : Bool} {P : Params} {f : StepFn}
 
-/-- ledger balance of a whole history -/
-theorem run_ledger (hf : ∀ s op m, PairOk s m → StepRefines dbl P s op m (f s op m)) :
-    ∀ (ops : List Op) (s : Chain × Chain) (m : Mem), PairOk s m →
-      (runWith f s ops m).2.2.live + (s.1.abs.length + s.2.abs.length) =
-        m.live + ((runWith f s ops m).2.1.1.abs.length + (runWith f s ops m).2.1.2.abs.length)
-  | [], _, _, _ => rfl
-  | op :: ops, s, m, h => by
-    obtain ⟨h1, _, _, _, _, h6, _⟩ := hf s op m h
-    have ih := run_ledger hf ops (f s op m).2.1 (f s op m).2.2 h1
-    simp only [runWith]
-    omega
-
 /-- allocator independence of a whole history -/
-theorem run_indep (hf : ∀ s op m, PairOk s m → StepRefines dbl P s op m (f s op m))
-    (hi : ∀ a b op m1 m2, m1.sched = m2.sched →
-      (f (ofList a, ofList b) op m1).1 = (f (ofList a, ofList b) op m2).1 ∧
-      (f (ofList a, ofList b) op m1).2.1 = (f (ofList a, ofList b) op m2).2.1 ∧
-      (f (ofList a, ofList b) op m1).2.2.sched = (f (ofList a, ofList b) op m2).2.2.sched) :
-    ∀ (ops : List Op) (s : Chain × Chain) (m1 m2 : Mem), PairOk s m1 → PairOk s m2 → m1.sched = m2.sched →
+theorem run_indep (hf : ∀ s op m, PairOk s m → SpliceOk s.1.triple s.2.triple op → StepRefines dbl P s op m (f s op m))
+    (hi : ∀ t1 t2 a b op m1 m2, m1.sched = m2.sched →
+      (f (ofList t1 a, ofList t2 b) op m1).1 = (f (ofList t1 a, ofList t2 b) op m2).1 ∧
+      (f (ofList t1 a, ofList t2 b) op m1).2.1 = (f (ofList t1 a, ofList t2 b) op m2).2.1 ∧
+      (f (ofList t1 a, ofList t2 b) op m1).2.2.sched = (f (ofList t1 a, ofList t2 b) op m2).2.2.sched) :
+    ∀ (ops : List Op) (s : Chain × Chain) (m1 m2 : Mem), PairOk s m1 → PairOk s m2 → Compat s ops → m1.sched = m2.sched →
       (runWith f s ops m1).1 = (runWith f s ops m2).1 ∧ (runWith f s ops m1).2.1 = (runWith f s ops m2).2.1 ∧
       (runWith f s ops m1).2.2.sched = (runWith f s ops m2).2.2.sched
-  | [], _, _, _, _, _, h => ⟨rfl, rfl, h⟩
-  | op :: ops, s, m1, m2, h1, h2, h => by
-    have hs : s = (ofList s.1.abs, ofList s.2.abs) := by rw [← h1.1.eq, ← h1.2.1.eq]
-    have e := hi s.1.abs s.2.abs op m1 m2 h
+  | [], _, _, _, _, _, _, h => ⟨rfl, rfl, h⟩
+  | op :: ops, s, m1, m2, h1, h2, hc, h => by
+    have hs : s = (ofList s.1.triple s.1.abs, ofList s.2.triple s.2.abs) := by rw [← h1.1.eq, ← h1.2.1.eq]
+    have e := hi s.1.triple s.2.triple s.1.abs s.2.abs op m1 m2 h
     rw [← hs] at e
-    have p1 := (hf s op m1 h1).1
-    have p2 := (hf s op m2 h2).1
+    have r1 := hf s op m1 h1 hc.spliceOk
+    have p1 := r1.1
+    have p2 := (hf s op m2 h2 hc.spliceOk).1
     rw [← e.2.1] at p2
-    have ih := run_indep hf hi ops (f s op m1).2.1 (f s op m1).2.2 (f s op m2).2.2 p1 p2 e.2.2
+    have ih := run_indep hf hi ops (f s op m1).2.1 (f s op m1).2.2 (f s op m2).2.2 p1 p2 (hc.tail r1.2.1) e.2.2
     simp only [runWith]
     rw [← e.2.1, e.1]
     exact ⟨by rw [ih.1], ih.2.1, ih.2.2⟩
